@@ -452,6 +452,42 @@ pub fn first_diff(a: &Value, b: &Value, path: String) -> Option<String> {
     }
 }
 
+/// Every differing leaf (up to `limit`) between two JSON values, each as "path\tkind\tdetail".
+pub fn all_diffs(a: &Value, b: &Value, path: String, out: &mut Vec<String>, limit: usize) {
+    if out.len() >= limit || a == b {
+        return;
+    }
+    match (a, b) {
+        (Value::Object(x), Value::Object(y)) => {
+            let mut keys: Vec<&String> = x.keys().chain(y.keys()).collect();
+            keys.sort();
+            keys.dedup();
+            for k in keys {
+                let (u, v) = (x.get(k).unwrap_or(&Value::Null), y.get(k).unwrap_or(&Value::Null));
+                if x.contains_key(k) && y.contains_key(k) {
+                    all_diffs(u, v, format!("{path}.{k}"), out, limit);
+                } else if let Some(d) = first_diff(&json!({ k.as_str(): x.get(k) }), &json!({ k.as_str(): y.get(k) }), path.clone()) {
+                    // present on one side only
+                    let d = if x.contains_key(k) { d.replacen("\tchanged\t", "\tmissing\t", 1) } else { d.replacen("\tchanged\t", "\textra\t", 1) };
+                    if out.len() < limit {
+                        out.push(d);
+                    }
+                }
+            }
+        }
+        (Value::Array(x), Value::Array(y)) if x.len() == y.len() => {
+            for i in 0..x.len() {
+                all_diffs(&x[i], &y[i], format!("{path}[{i}]"), out, limit);
+            }
+        }
+        _ => {
+            if let Some(d) = first_diff(a, b, path) {
+                out.push(d);
+            }
+        }
+    }
+}
+
 #[allow(dead_code)]
 pub fn obj(pairs: Vec<(&str, Value)>) -> Value {
     let mut m = Map::new();
